@@ -307,6 +307,23 @@ func (u *U) Eq(a, b *E) *E {
 	if a.IsNil() && b.IsNil() {
 		return u.Bool(True)
 	}
+	// index-like results: i == -1  ->  i < 0
+	if bv, ok := b.IntVal(); ok && indexLike(a) {
+		if bv == -1 {
+			return u.Lt(a, u.Int(0))
+		}
+		if bv < -1 {
+			return u.Bool(False)
+		}
+	}
+	if av, ok := a.IntVal(); ok && indexLike(b) {
+		if av == -1 {
+			return u.Lt(b, u.Int(0))
+		}
+		if av < -1 {
+			return u.Bool(False)
+		}
+	}
 	// s == ""  ->  len(s) == 0
 	if s, ok := b.StrVal(); ok && s == "" && !a.IsConst() {
 		return u.Eq(u.Len(a), u.Int(0))
@@ -348,6 +365,17 @@ func (u *U) Lt(a, b *E) *E {
 	}
 	if a.IsConst() && b.IsConst() {
 		return u.Bool(boolRef(constant.Compare(a.Const, token.LSS, b.Const)))
+	}
+	if av, ok := a.IntVal(); ok && indexLike(b) {
+		if av == -1 { // -1 < i  <=>  !(i < 0)
+			return u.Bool(u.bdd.Not(u.ToBool(u.Lt(b, u.Int(0)))))
+		}
+		if av < -1 {
+			return u.Bool(True)
+		}
+	}
+	if bv, ok := b.IntVal(); ok && indexLike(a) && bv < 0 {
+		return u.Bool(False)
 	}
 	if av, ok := a.IntVal(); ok && nonNeg(b) {
 		if av < 0 {
@@ -559,9 +587,14 @@ func (u *U) rebuild(x *E, args []*E) *E {
 			}
 		}
 	case "call":
+		if IsPureLib(x.Aux) {
+			return u.LibCall(x.Aux, x.Typ, args...)
+		}
 		if v := u.foldCall(x.Aux, args, x.Typ); v != nil {
 			return v
 		}
+	case "slice":
+		return u.Slice(args[0], args[1], args[2], args[3], x.Typ)
 	}
 	e := u.mk(x.Op, x.Aux, x.Typ, args...)
 	e.Const = x.Const
@@ -771,4 +804,139 @@ func (u *U) Collect(e *E, pred func(*E) bool) []*E {
 		return false
 	})
 	return out
+}
+
+// ---- library normal forms ----
+//
+// Equivalent spellings of the same string operation are reduced to one form so
+// that a rule stated over one spelling accepts the others:
+//   strings.IndexByte(s, 'c')      -> strings.Index(s, "c")
+//   strings.Cut(s, sep)            -> (s[:i] | s, s[i+len(sep):] | "", i >= 0)  with i = strings.Index(s, sep)
+//   strings.CutPrefix/TrimPrefix   -> s[len(p):] if strings.HasPrefix(s, p) else s
+//   strings.CutSuffix/TrimSuffix   -> s[:len(s)-len(p)] if strings.HasSuffix(s, p) else s
+//   x[a:][lo:hi]                   -> x[a+lo:a+hi];   x[0:] -> x;   x[lo:len(x)] -> x[lo:]
+//   index-like results (>= -1):    i == -1, i <= -1  -> i < 0;   i != -1, i > -1, i >= 0 -> !(i < 0)
+
+// indexLike reports whether e is the result of a search that returns -1 or a
+// valid index.
+func indexLike(e *E) bool {
+	if e.Op != "call" {
+		return false
+	}
+	switch e.Aux {
+	case "strings.Index", "strings.IndexByte", "strings.IndexRune", "strings.IndexAny", "strings.IndexFunc",
+		"strings.LastIndex", "strings.LastIndexByte", "strings.LastIndexAny", "strings.LastIndexFunc",
+		"bytes.Index", "bytes.IndexByte", "bytes.IndexRune", "bytes.IndexAny", "bytes.IndexFunc",
+		"bytes.LastIndex", "bytes.LastIndexByte", "slices.Index", "slices.IndexFunc":
+		return true
+	}
+	return false
+}
+
+// LibCall builds a call of a side-effect-free library function in normal form.
+func (u *U) LibCall(name string, typ types.Type, args ...*E) *E {
+	if v := u.foldCall(name, args, typ); v != nil {
+		return v
+	}
+	strT := types.Typ[types.String]
+	intT := types.Typ[types.Int]
+	boolT := types.Typ[types.Bool]
+	switch name {
+	case "strings.IndexByte":
+		if len(args) == 2 {
+			if c, ok := args[1].IntVal(); ok && c >= 0 && c < 128 {
+				return u.mk("call", "strings.Index", intT, args[0], u.Str(string(rune(c))))
+			}
+		}
+	case "strings.Cut":
+		if len(args) == 2 {
+			s, sep := args[0], args[1]
+			i := u.LibCall("strings.Index", intT, s, sep)
+			miss := u.ToBool(u.Lt(i, u.Int(0)))
+			before := u.ITE(miss, s, u.Slice(s, nil, i, nil, strT))
+			after := u.ITE(miss, u.Str(""), u.Slice(s, u.Bin(token.ADD, i, u.Len(sep), intT), nil, nil, strT))
+			return u.mk("tuple", "", typ, before, after, u.Bool(u.bdd.Not(miss)))
+		}
+	case "strings.CutPrefix", "strings.TrimPrefix":
+		if len(args) == 2 {
+			s, p := args[0], args[1]
+			h := u.ToBool(u.LibCall("strings.HasPrefix", boolT, s, p))
+			rest := u.ITE(h, u.Slice(s, u.Len(p), nil, nil, strT), s)
+			if name == "strings.TrimPrefix" {
+				return rest
+			}
+			return u.mk("tuple", "", typ, rest, u.Bool(h))
+		}
+	case "strings.CutSuffix", "strings.TrimSuffix":
+		if len(args) == 2 {
+			s, p := args[0], args[1]
+			h := u.ToBool(u.LibCall("strings.HasSuffix", boolT, s, p))
+			rest := u.ITE(h, u.Slice(s, nil, u.Bin(token.SUB, u.Len(s), u.Len(p), intT), nil, strT), s)
+			if name == "strings.TrimSuffix" {
+				return rest
+			}
+			return u.mk("tuple", "", typ, rest, u.Bool(h))
+		}
+	}
+	return u.mk("call", name, typ, args...)
+}
+
+// Slice builds x[lo:hi:max] in normal form (nil bounds are the defaults).
+func (u *U) Slice(x, lo, hi, mx *E, typ types.Type) *E {
+	// if-then-else operands: the selection moves to the top
+	if x.Op == "ite" {
+		return u.ITE(x.B, u.Slice(x.Args[0], lo, hi, mx, typ), u.Slice(x.Args[1], lo, hi, mx, typ))
+	}
+	if lo != nil && lo.Op == "ite" {
+		return u.ITE(lo.B, u.Slice(x, lo.Args[0], hi, mx, typ), u.Slice(x, lo.Args[1], hi, mx, typ))
+	}
+	if hi != nil && hi.Op == "ite" {
+		return u.ITE(hi.B, u.Slice(x, lo, hi.Args[0], mx, typ), u.Slice(x, lo, hi.Args[1], mx, typ))
+	}
+	if lo != nil {
+		if v, ok := lo.IntVal(); ok && v == 0 {
+			lo = nil
+		}
+	}
+	if hi != nil && hi == u.Len(x) {
+		hi = nil
+	}
+	if mx == nil && x.Op == "slice" && x.Args[3] == nil && types.Identical(x.Typ, typ) {
+		// x = y[a:b];  y[a:b][lo:hi] = y[a+lo : a+hi]  (hi defaults to b)
+		y, a, b := x.Args[0], x.Args[1], x.Args[2]
+		nlo := a
+		if lo != nil {
+			if a == nil {
+				nlo = lo
+			} else {
+				nlo = u.Bin(token.ADD, a, lo, types.Typ[types.Int])
+			}
+		}
+		nhi := b
+		if hi != nil {
+			if a == nil {
+				nhi = hi
+			} else {
+				nhi = u.Bin(token.ADD, a, hi, types.Typ[types.Int])
+			}
+		}
+		return u.Slice(y, nlo, nhi, nil, typ)
+	}
+	if lo == nil && hi == nil && mx == nil && x.Typ != nil && typ != nil && types.Identical(x.Typ, typ) {
+		return x
+	}
+	if s, ok := x.StrVal(); ok {
+		l, h := int64(0), int64(len(s))
+		okc := true
+		if lo != nil {
+			l, okc = lo.IntVal()
+		}
+		if hi != nil && okc {
+			h, okc = hi.IntVal()
+		}
+		if okc && 0 <= l && l <= h && h <= int64(len(s)) {
+			return u.Str(s[l:h])
+		}
+	}
+	return u.mk("slice", "", typ, x, lo, hi, mx)
 }
